@@ -216,8 +216,15 @@ def corruption_selftest(res, limit=10):
             bad.append(c)
             kinds.append("buffer-level-changed")
         c = copy.deepcopy(tr)
+        prob = res["problems"][tr["pid"] - 1]
         for i, v in enumerate(c["fin"]["ind"]):
-            if v:
+            # (an indicator that may be in a corner the documentation leaves open is not judged by R_indicator:
+            # only indicators that are specified for every schedule of the problem are corrupted)
+            ind = prob["inds"][i]
+            open_corner_possible = (any(t["optional"] for t in prob["tasks"]) or ind["cls"] == "IndicatorResourceIdle"
+                                    or ind.get("res", {}).get("t") == "cumul"
+                                    or (ind["cls"] == "IndicatorTardiness" and any(t["priority"] != 1 for t in prob["tasks"])))
+            if v and not open_corner_possible:
                 c["fin"]["ind"][i] = [v[0] + 7]
                 bad.append(c)
                 kinds.append("indicator-changed")
